@@ -15,6 +15,7 @@ import (
 	"github.com/Eyevinn/mp4ff/mp4"
 	"pgregory.net/rapid"
 
+	"verif/internal/boxgen"
 	"verif/internal/boxmut"
 	"verif/internal/boxwalk"
 	"verif/internal/harness"
@@ -28,16 +29,21 @@ func init() { harness.RegisterReplay("container", harness.Replayer(checkContaine
 func TestReplay(t *testing.T) { harness.ReplayPath(t) }
 
 type containerCase struct {
-	Seed  string           `json:"seed"`           // name in the seed pool, "" when Data is given
-	Muts  []boxmut.Mut     `json:"muts,omitempty"` // mutation recipe applied to the seed
-	Data  harness.HexBytes `json:"data,omitempty"` // explicit bytes (random / hand-written cases; filled in for reports)
-	Entry string           `json:"entry"`          // DecodeFile | DecodeFileLazy | DecodeFileSR | DecodeBox | DecodeBoxSR | DecodeBoxLazyMdat
-	Flags int              `json:"flags"`          // bit0 DecISMFlag, bit1 DecStartOnMoof
-	Info  string           `json:"info"`           // Info detail levels
-	Enc   int              `json:"enc"`            // bit0 box-tree mode, bit1 EncodeSW, bit2 OptimizeTrun, bit3 second encode
+	Seed   string           `json:"seed"`            // name in the seed pool, "" when Data is given
+	Muts   []boxmut.Mut     `json:"muts,omitempty"`  // mutation recipe applied to the seed
+	Data   harness.HexBytes `json:"data,omitempty"`  // explicit bytes (random / hand-written cases; filled in for reports)
+	Synth  harness.HexBytes `json:"synth,omitempty"` // bytes written by the grammar generator internal/boxgen (Muts apply on top)
+	Origin string           `json:"origin,omitempty"`
+	Entry  string           `json:"entry"` // DecodeFile | DecodeFileLazy | DecodeFileSR | DecodeBox | DecodeBoxSR | DecodeBoxLazyMdat
+	Flags  int              `json:"flags"` // bit0 DecISMFlag, bit1 DecStartOnMoof
+	Info   string           `json:"info"`  // Info detail levels
+	Enc    int              `json:"enc"`   // bit0 box-tree mode, bit1 EncodeSW, bit2 OptimizeTrun, bit3 second encode
 }
 
 func (c containerCase) bytes() []byte {
+	if c.Seed == "" && c.Synth != nil {
+		return boxmut.Apply(c.Synth, c.Muts)
+	}
 	if c.Seed == "" {
 		return c.Data
 	}
@@ -182,7 +188,24 @@ func genCase(t *rapid.T, smallNames, allNames []string) containerCase {
 		Info:  rapid.SampledFrom(infoLevels).Draw(t, "info"),
 		Enc:   rapid.IntRange(0, 15).Draw(t, "enc"),
 	}
-	switch mode := rapid.IntRange(0, 19).Draw(t, "mode"); {
+	switch mode := rapid.IntRange(0, 27).Draw(t, "mode"); {
+	case mode >= 20: // grammar-generated box or file: well framed, values legal (20-22) or hostile (23-27), then mutated or not
+		o := boxgen.Opt{Hostile: mode >= 23}
+		if strings.HasPrefix(c.Entry, "DecodeBox") {
+			typ := rapid.SampledFrom(synthTypes).Draw(t, "synthType")
+			c.Origin = "box:" + typ
+			c.Synth = boxgen.Box(t, typ, o)
+		} else {
+			kind := rapid.SampledFrom([]string{"prog", "init", "media", "frag", "frag", "any"}).Draw(t, "synthKind")
+			c.Origin = "file:" + kind
+			c.Synth = boxgen.File(t, kind, o)
+		}
+		if o.Hostile {
+			c.Origin += ":hostile"
+		}
+		if rapid.Bool().Draw(t, "synthMutate") {
+			c.Muts = boxmut.Gen(t, 2)
+		}
 	case mode == 0: // random bytes with a valid first header
 		typ := rapid.SampledFrom([]string{"moov", "moof", "ftyp", "styp", "sidx", "mdat", "trun", "senc", "stsd", "meta", "uuid", "emsg", "mfra", "zzzz"}).Draw(t, "type")
 		pl := rapid.SliceOfN(rapid.OneOf(rapid.SampledFrom([]byte{0, 0, 1, 0xff}), rapid.Byte()), 0, 60).Draw(t, "payload")
@@ -206,6 +229,8 @@ func genCase(t *rapid.T, smallNames, allNames []string) containerCase {
 	return c
 }
 
+var synthTypes = append(append([]string{"moov", "trak", "stbl", "stsd", "moof", "traf", "moof", "traf", "sgpd", "sbgp", "senc", "saiz", "saio", "trun", "tfhd", "sidx", "tfra", "mfra", "meta", "udta", "stsc", "stsz", "ctts", "elst", "pssh", "emsg", "subs"}, boxgen.LeafTypes()...), boxgen.ContainerTypes()...)
+
 func TestContainer(t *testing.T) {
 	repo := harness.E.RepoDir
 	small := seeds.Names(repo, 16<<10)
@@ -219,7 +244,12 @@ func TestContainer(t *testing.T) {
 		harness.SetCurrentCase("container", raw)
 		f := checkContainer(c)
 		origin := "mutated-seed"
-		if c.Seed == "" {
+		if c.Synth != nil {
+			origin = "grammar"
+			if strings.HasSuffix(c.Origin, ":hostile") {
+				origin = "grammar-hostile"
+			}
+		} else if c.Seed == "" {
 			origin = "random-with-valid-header"
 		} else if len(c.Muts) == 0 {
 			origin = "unmodified-seed"
@@ -241,7 +271,7 @@ func TestContainer(t *testing.T) {
 		if nt && lastStage.decoded && harness.Rec.WantSample() {
 			harness.Rec.Sample(map[string]interface{}{"kind": "container", "case": c})
 		}
-		if f != nil && c.Seed != "" {
+		if f != nil && (c.Seed != "" || c.Synth != nil) {
 			c.Data = c.bytes() // make the replay file self-contained
 			if len(c.Data) > 64<<10 {
 				c.Data = nil
